@@ -5,6 +5,7 @@ import (
 	"fmt"
 	"math/big"
 	"math/rand"
+	"sort"
 	"strings"
 
 	sdkmath "cosmossdk.io/math"
@@ -254,10 +255,25 @@ func c12Gen(r *rand.Rand, tier string) []Case {
 				c[j] += " # spell=" + pick(r, []string{"owner", "new"})
 			}
 		}
+		// now and then the chain is restarted from its exported genesis in the middle of the history
+		if r.Intn(2) == 0 {
+			var c2 Case
+			for j := range c {
+				if j > 0 && r.Intn(8) == 0 {
+					c2 = append(c2, "reimport")
+				}
+				c2 = append(c2, c[j])
+			}
+			c = c2
+		}
 		out = append(out, c)
 	}
 	// fixed case: more holders than a query page, then an export
 	out = append(out, Case{"reset 4", "enable 1", "mint 0 0 1000", "fund 0 0:1000", "crowd 130", "export", "xferamt 0 1 0:100", "export"})
+	// fixed cases: balances written by the genesis code path (restart from an export), then drained in full, by amount, by ratio
+	out = append(out, Case{"reset 4", "mint 0 0 1000", "mint 0 1 500", "fund 0 0:1000,1:500", "mint 1 0 70", "fund 1 0:70", "reimport", "dump 5", "xferall 0 2", "dump 5", "export",
+		"xferamt 1 2 0:70", "dump 5", "export", "reimport # dup=1", "dump 5", "xferratio 2 3 1000000000000000000", "dump 5", "export"})
+	out = append(out, Case{"reset 4", "mint 0 0 1000", "mint 0 1 500", "fund 0 0:1000,1:500", "reimport", "xferamt 0 1 1:500", "dump 5", "export", "xferamt 0 1 0:1000", "dump 5", "export"})
 	// fixed case: one account transferring to itself, named by two spellings of its address, all three messages
 	out = append(out, Case{"reset 4", "mint 0 0 1000", "mint 0 1 500", "fund 0 0:1000,1:500", "xferamt 0 0 0:400 # spell=new", "dump 5",
 		"xferratio 0 0 500000000000000000 # spell=owner", "dump 5", "xferall 0 0 # spell=new", "dump 5", "xferamt 0 1 0:100 # spell=owner", "dump 5"})
@@ -303,6 +319,32 @@ type c12Ledger struct {
 	total   map[string]*big.Int
 	holders map[string]bool
 	mod     map[string]*big.Int
+}
+
+// canon: the ledger as a string, independent of map order and of big.Int identity
+func (l c12Ledger) canon() string {
+	m := func(x map[string]*big.Int) string {
+		var ks []string
+		for k, v := range x {
+			if v.Sign() != 0 {
+				ks = append(ks, k+"="+v.String())
+			}
+		}
+		sort.Strings(ks)
+		return strings.Join(ks, ",")
+	}
+	var as, hs []string
+	for a, x := range l.bal {
+		if s := m(x); s != "" {
+			as = append(as, a+":"+s)
+		}
+	}
+	for a := range l.holders {
+		hs = append(hs, a)
+	}
+	sort.Strings(as)
+	sort.Strings(hs)
+	return "balances{" + strings.Join(as, " ") + "} total{" + m(l.total) + "} holders{" + strings.Join(hs, ",") + "} module{" + m(l.mod) + "}"
 }
 
 func c12Exec(c Case) (outs []string, fails []Failure, tags []string) {
@@ -503,6 +545,59 @@ func c12Exec(c Case) (outs []string, fails []Failure, tags []string) {
 			}
 			if len(gs.Balances) != live {
 				fails = append(fails, Failure{Signature: "C12:export:holders", What: fmt.Sprintf("exported genesis lists %d holders, %d accounts hold a balance", len(gs.Balances), live), Case: c[:i+1]})
+			}
+		case "reimport":
+			// the ledger as after a restart from an exported genesis: export, empty the module's store, InitGenesis with the
+			// exported state; the balances, total and holders are the same, only written by the genesis code path.
+			//   reimport # dup=1 : the first exported balance is listed twice and the total left to be computed
+			out = "skip"
+			kv := vmKV(f)
+			gs := dk.ExportGenesis(ctx)
+			before := read(ctx)
+			store := ctx.KVStore(app.GetKey(ucdaotypes.StoreKey))
+			var keys [][]byte
+			it := store.Iterator(nil, nil)
+			for ; it.Valid(); it.Next() {
+				keys = append(keys, append([]byte{}, it.Key()...))
+			}
+			it.Close()
+			for _, k := range keys {
+				store.Delete(k)
+			}
+			tags = append(tags, "restarted-from-exported-genesis")
+			if kv["dup"] == "1" && len(gs.Balances) > 0 {
+				// refused, or taken with books that add up
+				cctx, write := ctx.CacheContext()
+				g2 := *gs
+				g2.Balances = append(append([]ucdaotypes.Balance{}, gs.Balances...), gs.Balances[0])
+				g2.TotalBalance = sdk.Coins{}
+				accepted := func() (ok bool) {
+					defer func() {
+						if r := recover(); r != nil {
+							ok = false
+						}
+					}()
+					dk.InitGenesis(cctx, &g2)
+					return true
+				}()
+				if accepted {
+					tags = append(tags, "genesis-with-an-address-twice-accepted")
+					sum := sdk.NewCoins()
+					for _, b := range dk.GetAccountsBalances(cctx) {
+						sum = sum.Add(b.Coins...)
+					}
+					if !sum.IsEqual(dk.GetTotalBalance(cctx)) {
+						fails = append(fails, Failure{Signature: "C12:genesis:sum-ne-total:address-listed-twice", What: fmt.Sprintf("a genesis listing %s twice was accepted: Σ balances %s, recorded total %s", gs.Balances[0].Address, sum, dk.GetTotalBalance(cctx)), Case: c[:i+1]})
+					}
+					_ = write
+				} else {
+					tags = append(tags, "genesis-with-an-address-twice-refused")
+				}
+			}
+			dk.InitGenesis(ctx, gs)
+			after := read(ctx)
+			if before.canon() != after.canon() {
+				fails = append(fails, Failure{Signature: "C12:reimport:ledger-differs", What: fmt.Sprintf("ledger before export %s, after import %s", before.canon(), after.canon()), Case: c[:i+1]})
 			}
 		case "enable":
 			_ = dk.SetParams(ctx, ucdaotypes.Params{EnableDao: f[1] == "1"})
